@@ -20,7 +20,7 @@ def showResps (out : List Resp) : String :=
 def showSess (z : Sess) (out : List Resp) : String :=
   let sub := match z.sub with
     | none => "st=-"
-    | some s => s!"st={stateNum s.state} life={s.life} ka={s.ka} sent={boolStr s.sent} nq={s.notifs.length}"
+    | some s => s!"st={stateNum s.state} life={s.life} ka={s.ka} sent={boolStr s.sent} nq={s.notifs.length} it={boolStr s.hasItem}"
   s!"{sub} rq={natList z.reqs} resp={showResps out}"
 
 /-! ### arm tags (`result @@ tags`): which rows / guard outcomes / handler arms an op took -/
